@@ -80,6 +80,10 @@ func c18Bytes(rt *rapid.T, limit int, label string) []byte {
 }
 
 func c18Message(rt *rapid.T, limit int) proto.Message {
+	if rapid.IntRange(0, 7).Draw(rt, "allDefault") == 0 {
+		// every field at its default: a frame of length zero
+		return []proto.Message{&protocoltypes.ShareableContact{}, &protocoltypes.GroupEnvelope{}, &protocoltypes.MessageEnvelope{}, &protocoltypes.Group{}}[rapid.IntRange(0, 3).Draw(rt, "kind0")]
+	}
 	switch rapid.IntRange(0, 3).Draw(rt, "kind") {
 	case 0:
 		return &protocoltypes.ShareableContact{Pk: c18Bytes(rt, limit, "pk"), PublicRendezvousSeed: c18Bytes(rt, 40, "seed"), Metadata: c18Bytes(rt, 8, "md")}
@@ -153,6 +157,10 @@ func TestVerif_C18_RoundTrip(t *testing.T) {
 		limit := rapid.SampledFrom([]int{0, 1, 8, 64, 300, 2048, 20000}).Draw(rt, "limit")
 		n := rapid.IntRange(0, 20).Draw(rt, "n")
 		useMT := rapid.Bool().Draw(rt, "marshalTo")
+		// the usual receive loop reads every frame into the same destination object
+		reuse := rapid.Bool().Draw(rt, "reuseDestination")
+		dests := map[string]proto.Message{}
+		reusedAfterLonger := false
 		var msgs []proto.Message
 		var sizes []int
 		var stream bytes.Buffer
@@ -185,6 +193,17 @@ func TestVerif_C18_RoundTrip(t *testing.T) {
 		overAt := -1
 		for i := range msgs {
 			out := c18New(msgs[i])
+			if reuse {
+				tn := string(msgs[i].ProtoReflect().Descriptor().FullName())
+				if d, ok := dests[tn]; ok {
+					if proto.Size(d) > sizes[i] {
+						reusedAfterLonger = true
+					}
+					out = d
+				} else {
+					dests[tn] = out
+				}
+			}
 			err := r.ReadMsg(out)
 			if sizes[i] > limit {
 				overAt = i
@@ -197,9 +216,13 @@ func TestVerif_C18_RoundTrip(t *testing.T) {
 				fail("read-error", "frame %d (%d bytes, limit %d): unexpected error %v", i, sizes[i], limit, err)
 			}
 			if !proto.Equal(out, msgs[i]) {
-				fail("mismatch", "frame %d decoded to a different message", i)
+				fail("mismatch", "frame %d (%d bytes) decoded to a different message (destination reused from an earlier frame: %v)", i, sizes[i], reuse)
 			}
-			got = append(got, out)
+			if reuse {
+				got = append(got, proto.Clone(out))
+			} else {
+				got = append(got, out)
+			}
 		}
 		if overAt < 0 {
 			// the stream is exhausted: one more read reports an error (EOF), not a message
@@ -217,10 +240,10 @@ func TestVerif_C18_RoundTrip(t *testing.T) {
 		c18CheckBuf(r, limit, fail)
 		multi := len(got) >= 2 && (rkind == "chunks" || rkind == "onebyte" || rkind == "half")
 		nt := multi || (overAt > 0)
-		acct.Case(nt, fmt.Sprintf("%s|%d|%v|%s|%v", v.Name, limit, sizes, rkind, useMT), func() any {
+		acct.Case(nt, fmt.Sprintf("%s|%d|%v|%s|%v|%v", v.Name, limit, sizes, rkind, useMT, reuse), func() any {
 			return map[string]any{"kind": "roundtrip", "variant": v.Name, "limit": limit, "frame_sizes": sizes, "reader": rkind, "marshalTo": useMT, "over_limit_at": overAt}
 		}, "roundtrip", "roundtrip/"+v.Name, lbl(overAt > 0, "roundtrip/over-limit-frame-not-first"), lbl(overAt == 0, "roundtrip/over-limit-frame-first"),
-			lbl(multi, "roundtrip/multi-frame-chunked"), lbl(useMT, "roundtrip/marshalTo-path"))
+			lbl(multi, "roundtrip/multi-frame-chunked"), lbl(useMT, "roundtrip/marshalTo-path"), lbl(reusedAfterLonger, "roundtrip/destination-reused-for-a-shorter-frame"))
 	})
 }
 
